@@ -75,6 +75,9 @@ def run(tier):
     for name, consts, n in (("base", dict(base, MaxOps=2 if quick else 3), 70 if quick else 1500),
                             ("graph", dict(graph, MaxOps=2 if quick else 3), 40 if quick else 1000),
                             ("seeded", dict(seeded, MaxOps=2), 40 if quick else 800),
+                            # the seed holds an edge that was linked, soft-unlinked and linked again: the old log replayed
+                            # over a newer image (crash between snapshot rename and truncation) must change nothing
+                            ("edge_history", dict(ec.SEEDED_G, MaxOps=1 if quick else 2), 30 if quick else 800),
                             # crash points INSIDE an index drop, a compression and an import commit (after a snapshot or not)
                             ("mid_base", dict(ec.SEEDED_BASE, MaxOps=2 if quick else 3, MaxRej=0), 40 if quick else 1500),
                             ("mid_import", dict(ec.IMPORT, MaxOps=2 if quick else 3, MaxRej=0), 30 if quick else 1500),
@@ -112,7 +115,7 @@ def run(tier):
         recs.sort(key=lambda x: json.dumps(x["ops"], sort_keys=True))
         if len(recs) > n:
             recs = rng.sample(recs, n)
-        seedn = (1 + len(ec.profile_for(consts)["ids"])) if consts.get("Seeded") == "TRUE" else 0
+        seedn = (1 + len(ec.profile_for(consts)["ids"]) + (4 if consts.get("SeedGraph") == "TRUE" else 0)) if consts.get("Seeded") == "TRUE" else 0
         cases = [dict(x, id="%s%d" % (name[0], i), flush_after=seedn) for i, x in enumerate(recs)]
         if seedn:
             cases = [c for c in cases if len(c["ops"]) > seedn]
